@@ -26,6 +26,14 @@ inductive Srv
   | up | down | err
 deriving DecidableEq, Repr
 
+/-- one configured bind pattern, by what the directory does with the DN it produces: the DN names the
+user's entry (the answer depends on the password); it is a well-formed DN that names no entry
+(invalidCredentials whatever the password); the directory answers it with a non-credential result
+code (e.g. a userPrincipalName-style name answered with invalidDNSyntax) -/
+inductive Pat
+  | entry | noEntry | malformed
+deriving DecidableEq, Repr
+
 /-- the primary database: reachable; slow (reads time out and are served by the cache, writes still
 arrive); unreachable (reads served by the cache, writes fail) -/
 inductive Prim
@@ -55,6 +63,8 @@ structure State where
   unauthenticated bind; Active Directory's default) -/
   anonBind : Bool
   srv : List Srv
+  /-- the configured bind patterns, in order -/
+  pats : List Pat
   /-- rows whose `type` column is `passwordDataType`, by `username` column -/
   primary : User → Option Rec
   cache : User → Option Rec
@@ -66,46 +76,72 @@ structure State where
   issued : List Signed
 
 def init : State :=
-  { dir := fun _ => none, anonBind := false, srv := [], primary := fun _ => none, cache := fun _ => none,
+  { dir := fun _ => none, anonBind := false, srv := [], pats := [], primary := fun _ => none, cache := fun _ => none,
     prim := .up, now := 0, confirmed := [], issued := [] }
 
 def upd (f : User → Option Rec) (u : User) (v : Option Rec) : User → Option Rec :=
   fun x => if x = u then v else f x
 
-/-- does the directory authenticate `u` with `pw`? (an empty password authenticates nobody) -/
-def dirAccepts (s : State) (u : User) (pw : Pw) : Bool := pw != 0 && s.dir u == some pw
+/-- the pattern whose answer is a verdict: the first one the directory does not answer with an error -/
+def firstPat (s : State) : Option Pat := s.pats.find? (fun p => p != Pat.malformed)
 
-/-! ### `CheckLDAPUserPassword` and the server loop -/
+/-- does the directory authenticate `u` with `pw` under the configured naming? (an empty password
+authenticates nobody; the first pattern that gets a verdict must name the user's entry) -/
+def dirAccepts (s : State) (u : User) (pw : Pw) : Bool :=
+  pw != 0 && (firstPat s == some Pat.entry) && s.dir u == some pw
 
-/-- one server: `some v` = `(v, nil)` — a verdict; `none` = `(false, err)` — fall through.
+/-! ### `CheckLDAPUserPassword` and the server × pattern loops -/
+
+/-- what a reachable directory server answers to a bind with the DN of pattern `p` -/
+def patAnswer (s : State) (u : User) (pw : Pw) : Pat → Option Bool
+  | .entry => some (s.dir u == some pw)
+  | .noEntry => some false
+  | .malformed => none
+
+/-- one server, one pattern: `some v` = `(v, nil)` — a verdict; `none` = `(false, err)` — fall through.
 Repaired: an empty password is refused before any server is contacted. -/
-def checkServer (s : State) (st : Srv) (u : User) (pw : Pw) : Option Bool :=
+def checkServer (s : State) (st : Srv) (p : Pat) (u : User) (pw : Pw) : Option Bool :=
   if pw = 0 then some false
   else match st with
     | .down => none
     | .err => none
-    | .up => some (s.dir u == some pw)
+    | .up => patAnswer s u pw p
 
 /-- as found: the empty password is sent as a simple bind; a directory that allows unauthenticated
 binds answers `success`, the others `unwillingToPerform` -/
-def checkServerUnfixed (s : State) (st : Srv) (u : User) (pw : Pw) : Option Bool :=
+def checkServerUnfixed (s : State) (st : Srv) (p : Pat) (u : User) (pw : Pw) : Option Bool :=
   match st with
   | .down => none
   | .err => none
-  | .up => if pw = 0 then (if s.anonBind then some true else none) else some (s.dir u == some pw)
+  | .up =>
+    if pw = 0 then (if p = .malformed then none else if s.anonBind then some true else none)
+    else patAnswer s u pw p
 
-/-- `for _, u := range pa.ldapURL { … if err != nil { continue }; …; return valid, nil }` -/
-def loopWith (chk : Srv → Option Bool) : List Srv → Option Bool
+/-- `for _, x := range xs { …; if err != nil { continue }; …; return valid, nil }` -/
+def loopWith {α : Type} (chk : α → Option Bool) : List α → Option Bool
   | [] => none
-  | st :: rest =>
-    match chk st with
+  | a :: rest =>
+    match chk a with
     | some v => some v
     | none => loopWith chk rest
 
-def loop (s : State) (u : User) (pw : Pw) : Option Bool := loopWith (fun st => checkServer s st u pw) s.srv
+/-- `for _, u := range pa.ldapURL { for _, bindPattern := range pa.bindPattern { … } }`: servers
+outside, patterns inside; the first (server, pattern) whose check returns no error decides -/
+def loop (s : State) (u : User) (pw : Pw) : Option Bool :=
+  loopWith (fun st => loopWith (fun p => checkServer s st p u pw) s.pats) s.srv
 
-/-- some configured server gives verdicts -/
-def answers (s : State) : Prop := Srv.up ∈ s.srv
+/-- a hypothetical variant (seeded by a reviewer): a rejection under a pattern that is not the last
+one does not decide — "the user may live under another pattern" -/
+def patLoopLastDecides (chk : Pat → Option Bool) : List Pat → Option Bool
+  | [] => none
+  | [p] => chk p
+  | p :: q :: rest =>
+    match chk p with
+    | some true => some true
+    | _ => patLoopLastDecides chk (q :: rest)
+
+/-- some (server, pattern) pair gives verdicts -/
+def answers (s : State) : Prop := Srv.up ∈ s.srv ∧ ∃ p ∈ s.pats, p ≠ Pat.malformed
 
 instance (s : State) : Decidable (answers s) := by unfold answers; infer_instance
 
@@ -212,6 +248,7 @@ inductive Op
   | login (u : User) (pw : Pw)
   | setServer (i : Nat) (st : Srv)
   | setServers (l : List Srv)
+  | setPats (l : List Pat)
   | changePw (u : User) (pw : Option Pw)
   | setAnon (b : Bool)
   | advance (dt : Nat)
@@ -236,6 +273,7 @@ def stepWith (v : Variant) (s : State) : Op → State × Option Bool
   | .login u pw => ((loginWith v.lp v.get s u pw).1, some (loginWith v.lp v.get s u pw).2)
   | .setServer i st => ({ s with srv := s.srv.set i st }, none)
   | .setServers l => ({ s with srv := l }, none)
+  | .setPats l => ({ s with pats := l }, none)
   | .changePw u pw => ({ s with dir := fun x => if x = u then pw else s.dir x }, none)
   | .setAnon b => ({ s with anonBind := b }, none)
   | .advance dt => ({ s with now := s.now + dt }, none)
